@@ -7,7 +7,7 @@
    comb / fuel / the script [evs] quantify over every reader behaviour (arbitrary
    chunking, 0-byte reads, an error at any offset, data together with EOF/error).
    [matches_desc H dg sz bs] = length bs = sz /\ dg = alg:H alg bs /\ dg is a valid digest. *)
-From Oras Require Import Base.Prelude Generated.GC05 Model.Verify Proofs.Verify Proofs.VerifyComplete Proofs.VerifyProxy Proofs.VerifyFuel Proofs.VerifyConc Proofs.VerifyTop Proofs.VerifyWriter Proofs.VerifyNames Proofs.VerifyFileConc Proofs.VerifyOpts Proofs.VerifyChunk Proofs.VerifyEof Proofs.VerifyFacts.
+From Oras Require Import Base.Prelude Generated.GC05 Model.Verify Proofs.Verify Proofs.VerifyComplete Proofs.VerifyProxy Proofs.VerifyFuel Proofs.VerifyConc Proofs.VerifyTop Proofs.VerifyWriter Proofs.VerifyNames Proofs.VerifyFileConc Proofs.VerifyOpts Proofs.VerifyChunk Proofs.VerifyEof Proofs.VerifyFacts Model.VerifyAny Proofs.VerifyAny.
 
 (* ReadAll hands back data only when length and digest match and the reader held
    nothing else *)
@@ -788,3 +788,47 @@ Example C05_ex_eof_not_final :
    fst (fst (copy_buffer toyH true true 20 (mkBase [Data [1;2;3]; Eof; Data [9]] None) 2 (toy_dg [1;2;3]) 3)))
   = ((None, [1;2;3]), Some EUnexpEof, Some ETrailing).
 Proof. vm_compute. reflexivity. Qed.
+
+(* ---- "every reader behaviour", without the script: the reader below the VerifyReader is ANY
+   state machine obeying the io.Reader contract (a Read returns at most len(p) bytes) - a
+   network stream, a reader that goes on after EOF, another VerifyReader ...  Whatever sequence
+   of Read(k) and Verify calls the caller makes: if some Verify answered nil, everything the
+   Reads handed out is exactly the bytes the descriptor names (sz bytes hashing to dg) *)
+Theorem C05_verify_any_reader :
+  forall (H : str -> str -> str) (S : Type) (rd : S -> nat -> rres * S),
+    (forall s k, (length (fst (fst (rd s k))) <= k)%nat) ->
+    forall src dg sz fuel ops v' out' oks',
+      g_run H rd fuel dg ops (g_new src dg sz) [] 0%nat = (v', out', oks') ->
+      (0 < oks')%nat ->
+      Z.of_nat (length out') = sz /\ verified H dg out' = true /\ valid_digest dg = true.
+Proof. exact @verify_any_reader_sound. Qed.
+Print Assumptions C05_verify_any_reader.
+
+(* a VerifyReader over such a reader is such a reader again: the statement above holds for
+   verifying readers nested to any depth, e.g. a caller that hands Push / NewVerifyReader a
+   reader that is itself a VerifyReader for ANY inner descriptor (dgi, szi) *)
+Theorem C05_verify_reader_closure :
+  forall (S : Type) (rd : S -> nat -> rres * S),
+    (forall s k, (length (fst (fst (rd s k))) <= k)%nat) ->
+    forall v k, (length (fst (fst (g_read rd v k))) <= k)%nat.
+Proof. exact @g_read_ok. Qed.
+Print Assumptions C05_verify_reader_closure.
+
+Theorem C05_nested_verify_reader :
+  forall (H : str -> str -> str) comb (src : base) dgi szi dg sz fuel ops v' out' oks',
+    g_run H (g_read (base_read comb)) fuel dg ops (g_new (g_new src dgi szi) dg sz) [] 0%nat = (v', out', oks') ->
+    (0 < oks')%nat ->
+    Z.of_nat (length out') = sz /\ verified H dg out' = true /\ valid_digest dg = true.
+Proof. exact nested_verify_reader_sound. Qed.
+Print Assumptions C05_nested_verify_reader.
+
+(* the generic definitions at the scripted reader ARE the model the correspondence check runs
+   (Model/Verify.v vr_read / vr_verify, observables of the VR / ST / RA cases) *)
+Theorem C05_any_reader_instance_is_model :
+  forall (H : str -> str -> str) comb fuel dg v k,
+    g_read (base_read comb) (to_g v) k = (fst (vr_read comb v k), to_g (snd (vr_read comb v k))) /\
+    g_verify H (base_read comb) fuel dg (to_g v) =
+      (fst (vr_verify H comb fuel dg v), to_g (snd (vr_verify H comb fuel dg v))) /\
+    (forall s k', (length (fst (fst (base_read comb s k'))) <= k')%nat).
+Proof. intros H comb fuel dg v k. exact (conj (to_g_read comb v k) (conj (to_g_verify H comb fuel dg v) (base_read_ok comb))). Qed.
+Print Assumptions C05_any_reader_instance_is_model.
